@@ -82,6 +82,19 @@ func GetFixtures() *Fixtures {
 			}
 			return api.WriteContext(ctx, w)
 		}, in)
+		f.Files["att3.pdf"] = mustPDF("att3", func(rs *bytes.Reader, w *bytes.Buffer) error {
+			ctx, err := api.ReadValidateAndOptimize(rs, newConf())
+			if err != nil {
+				return err
+			}
+			for _, n := range []string{"a.txt", "b.txt", "c.txt"} {
+				a := model.Attachment{Reader: bytes.NewReader([]byte("attachment " + n + "\n")), ID: n, FileName: n}
+				if err := ctx.AddAttachment(a, false); err != nil {
+					return err
+				}
+			}
+			return api.WriteContext(ctx, w)
+		}, in)
 		f.Files["wm.pdf"] = mustPDF("wm", func(rs *bytes.Reader, w *bytes.Buffer) error {
 			wm, err := api.TextWatermark("WM", "pos:c, scale:0.5 rel", true, false, types.POINTS)
 			if err != nil {
